@@ -5,6 +5,8 @@ import os
 import re
 
 from harness.common import facts as F
+from harness.common import build as _build
+from harness.c04 import translate
 
 ID = 'C04'
 HERE = os.path.dirname(os.path.abspath(__file__))
@@ -22,25 +24,31 @@ ASSUMPTIONS = ['action dicts are pairwise unequal (each has its own callable/inf
                "order is an int for the theorems (order=None is modelled: 'order or 0', min_order = None)",
                'discriminators are compared by ==/hash; a Deferred is private to its action and its function is pure',
                'include specs are distinct (ActionState.processSpec de-duplication is not modelled)']
-TRUSTED = ['hand-written model coq/Model/C04.v of ActionState.action/execute_actions, resolveConflicts, '
-           'ConflictResolverState, normalize_actions, undefer/Deferred (shape-pinned, validated by correspondence)',
+TRUSTED = ['hand-written model coq/Model/C04.v of resolveConflicts, ConflictResolverState, ActionState.action, normalize_actions, '
+           'undefer/Deferred (shape-pinned, validated by correspondence)',
+           'harness/c04/translate.py: fail-closed ast -> Gallina translator of ActionState.execute_actions and '
+           'ActionConfiguratorMixin.action (control flow mechanical; 14-line primitive table in its docstring)',
            'Python sorted/list.sort/itertools.groupby/enumerate/dict ordering modelled by coq/Lib/C04Sort.v and insertion-ordered lists',
            'Configurator.include modelled only by its includepath expression (regenerated fact); the rest of include() is exercised, not modelled']
-TECHNIQUE = ('Coq proof (induction over phases / generator steps) on a hand-written Gallina model + regenerated facts '
-             '+ extracted-model differential correspondence')
+TECHNIQUE = ('Coq proof (induction over phases / generator steps) on a hand-written Gallina model + regenerated facts + '
+             'control flow of execute_actions / Configurator.action regenerated from the source with generated = model '
+             'theorems + extracted-model differential correspondence')
 LEVEL_TEXT = ('Machine-checked theorems about an executable model of execute_actions/resolveConflicts that follows the '
               'code statement by statement (generator suspension included); the declarative commit specification is a '
               'Gallina function returned next to the model output and compared with the real implementation on every case.')
-LEVEL_NOTE = ('Trusted: Coq kernel; hand-written model (validated by correspondence, shape-pinned); Python harness. '
+LEVEL_NOTE = ('Trusted: Coq kernel; hand-written model (validated by correspondence; resolveConflicts & co shape-pinned, '
+              'execute_actions and ActionConfiguratorMixin.action translated on every run and proved equal to the model); '
+              'translator primitive table; Python harness. '
               'See harness/c04/NOTES.md for which theorems are proved and which are TODO (unproved).')
 
 MOD = 'harness.c04.prop'
 PHASES = [-30, -20, -10, 0, 5]
 
 PIN_SPEC = {
-    'pyramid/config/actions.py': ['ActionState.action', 'ActionState.execute_actions', 'ConflictResolverState',
+    # ActionState.execute_actions and ActionConfiguratorMixin.action are TRANSLATED (harness/c04/translate.py), not pinned
+    'pyramid/config/actions.py': ['ActionState.action', 'ConflictResolverState',
                                   'resolveConflicts', 'normalize_actions', 'expand_action_tuple',
-                                  'ActionConfiguratorMixin.action', 'ActionConfiguratorMixin.commit'],
+                                  'ActionConfiguratorMixin.commit'],
     'pyramid/config/__init__.py': ['Configurator.include'],
     'pyramid/registry.py': ['Deferred', 'undefer'],
 }
@@ -243,6 +251,12 @@ def facts(src):
         coq += 'Definition %s : N := %d%%N.\n' % (k, d[k])
     coq += 'Definition phase_values : list Z := [%s]%%Z.\n' % '; '.join('(%d)' % z for z in d['phase_values'])
     summary.update(d)
+    # control flow of execute_actions / ActionConfiguratorMixin.action regenerated from the source; it needs the
+    # model's primitives, so it lives in a second generated file that imports Model/C04.v
+    gen, tproblems, tsummary = translate.translate_tree(src)
+    problems += tproblems
+    summary.update(tsummary)
+    _build.write_if_changed(os.path.join(_build.COQ, 'Gen', 'Exec_C04.v'), gen)
     return {'coq': coq, 'summary': summary, 'problems': problems}
 
 
